@@ -1,8 +1,8 @@
 (* SatELite-style simplification as implemented in /repo/src/smtsolvers/SimpSMTSolver.cc (C12, "d" events):
-     merge            (SimpSMTSolver.cc:293  SimpSMTSolver::merge)           resolvent of two clauses on variable v
-     eliminateVar     (SimpSMTSolver.cc:561  SimpSMTSolver::eliminateVar)    cross product pos x neg of resolvents
+     merge            (SimpSMTSolver.cc:296  SimpSMTSolver::merge)           resolvent of two clauses on variable v
+     eliminateVar     (SimpSMTSolver.cc:576  SimpSMTSolver::eliminateVar)    cross product pos x neg of resolvents
      Clause::subsumes (minisat/core/SolverTypes.h:404)                       subsumption / self-subsumption test
-     strengthenClause (SimpSMTSolver.cc:263) called from backwardSubsumptionCheck (:421) and asymm (:492)
+     strengthenClause (SimpSMTSolver.cc:263) called from backwardSubsumptionCheck (:423) and asymm (:497)
    Theorems: every clause these steps add is entailed by the clauses they are computed from
    ([merge_sound], [elim_resolvents_sound], [strengthen_sound], [asymm_sound]).
    The abstraction word / size pre-test of subsumes only short-cuts to lit_Error and is not modelled. *)
